@@ -8,6 +8,8 @@ func init() {
 		Fixtures:    []string{"dec"},
 		Run:         runC16,
 		SelfTest: []Mutation{
+			{Name: "PLY reader skips comment lines by calling itself (defect repaired)", File: "fileformats/ply.go",
+				Old: "\t\t\tif len(line) == 0 || strings.Fields(line)[0] != \"comment\" {\n\t\t\t\tbreak\n\t\t\t}\n", New: "\t\t\tif len(line) > 0 && strings.Fields(line)[0] == \"comment\" {\n\t\t\t\treturn p.Read()\n\t\t\t}\n\t\t\tbreak\n", Rule: "DL.RECURSE", Expect: "PLYReader"},
 			{Name: "OFF header checks the sign of the vertex count only", File: "fileformats/off.go",
 				Old: "if numVerts < 0 || numFaces < 0 {", New: "if numVerts < 0 {", Rule: "DA.SIGN", Expect: "ReadOFF"},
 			{Name: "CSV reader accepts rows of any width", File: "fileformats/segment_csv.go",
@@ -70,6 +72,8 @@ func runC16(c *Ctx) {
 	c.floor("DL", 4)
 	s.ruleDICounter("DI.COUNTER")
 	c.floor("DI.COUNTER", 0)
+	s.ruleDLRecurse("DL.RECURSE")
+	c.floor("DL.RECURSE", 0)
 	s.ruleDIRange("DI.RANGE")
 	c.floor("DI.RANGE", 0)
 	s.ruleConsume("DL.CONSUME")
